@@ -14,6 +14,7 @@ package hashing
 
 //@ func HashingReaderWrapper.Read
 //@   props C07 C04 C06
+//@   allocbound len(bytes)
 //@   requires wrapperOK(t)
 //@   assigns *bytes, X.stream, X.spos, X.hacc, X.hkind
 
